@@ -80,6 +80,11 @@ def _merge(names):
     return 'const:' + ','.join(sorted(n[6:] for n in names)) if names else '?'
 
 
+def fp_cond(p):
+    from .. import failpaths as fp
+    return fp.cond_text(p, 4)
+
+
 def run(c, chk):
     chk.explanation = EXPLANATION
     chk.rule('R14.0', 'indirect call sites enumerated by callback field (instance floors)')
@@ -201,6 +206,16 @@ def run(c, chk):
                 si = tr.events.index(so[-1])
                 later = [e for e in tr.events[si + 1:] if e.kind == 'call' and e.name == 'indirect:validcb']
                 skipped = tr.assumes('opt->validcb', False)
+                if later:
+                    # "with that value visible": nothing between the store and the callback takes the values away again
+                    from .. import cfg as _cfgmod
+                    between = tr.events[si + 1:tr.events.index(later[0])]
+                    gone = [e for e in between if e.kind == 'call' and not e.inlined and c.func(e.name) is not None and ('p', 'opt') in e.args
+                            and 'cfg_free_value' in _cfgmod.transitive(c.callgraph, [e.name])]
+                    if gone:
+                        chk.fail('R14.3', 'value-gone-before-validation:state%d' % s, c.where(gone[0].ins),
+                                 'state %d calls %s() between storing the value and running the validation callback: the callback no longer sees the value it is to judge'
+                                 % (s, gone[0].name), witness=[tr.describe()])
                 if not later and not skipped:
                     chk.fail('R14.3', 'no-validation:state%d:%s' % (s, pm.TOKNAME.get(tok, tok)), c.where(so[-1].ins),
                              'state %d on %s stores a value and goes on without running the option\'s validation callback' % (s, pm.TOKNAME.get(tok, tok)),
@@ -255,12 +270,23 @@ def run(c, chk):
     for fname, setter in (('cfg_setnint', 'cfg_opt_setnint'), ('cfg_setnfloat', 'cfg_opt_setnfloat'), ('cfg_setnstr', 'cfg_opt_setnstr')):
         fn = c.need(fname)
         good = 0
+        skipped = None
         for p in ex.explore(fn):
             if p.end != 'ret':
                 continue
             v2 = [e for e in p.events if e.kind == 'call' and e.name == 'indirect:validcb2']
             st = [e for e in p.events if e.kind == 'call' and e.name == setter]
             if not v2:
+                # the callback may only be passed over when there is none (or no option)
+                none = False
+                for cn, t, _ in p.assume:
+                    if cn[0] == 'icmp' and cn[1] in ('eq', 'ne') and sym.C0 in (cn[2], cn[3]) and ((cn[1] == 'eq') == t):
+                        o = cn[3] if cn[2] == sym.C0 else cn[2]
+                        if (o[0] == 'ld' and o[1][0] == 'fld' and o[1][3] == 'validcb2') or (o[0] == 'call' and o[1] in ('cfg_getopt', 'cfg_getopt_secidx')) \
+                                or o in (('p', 'cfg'), ('p', 'name'), ('p', 'opt')):
+                            none = True
+                if not none:
+                    skipped = skipped or p
                 continue
             vc = v2[0]
             verdict = None
@@ -291,7 +317,11 @@ def run(c, chk):
                              '%s(): the value handed to the pre-set validation callback (%s) is not the one that is stored (%s)' % (fname, sym.render(arg), sym.render(val)))
                     continue
             good += 1
-        if good:
+        if skipped is not None:
+            chk.fail('R14.5', 'validcb2-bypassed:%s' % fname, c.where(skipped.last_ins) if skipped.last_ins is not None else c.where(fn),
+                     '%s() can return %s without consulting the pre-set validation callback although one may be installed (%s): the callback cannot veto or rewrite that call'
+                     % (fname, sym.render(skipped.retval) if skipped.retval is not None else '', fp_cond(skipped)))
+        elif good:
             chk.ok('R14.5', fname, '%d paths: validcb2 before %s(); veto returns CFG_FAIL; stored value is the validated one' % (good, setter), sample=True)
         else:
             chk.fail('R14.5', 'validcb2-missing:%s' % fname, c.where(fn), '%s() never consults the pre-set validation callback' % fname)
